@@ -133,17 +133,20 @@ private:
 
 public:
     // Constructor
-    PartialSVDSolver(ConstGenericMatrix& mat, Index ncomp, Index ncv) :
-        m_mat(mat), m_m(mat.rows()), m_n(mat.cols()), m_evecs(0, 0)
+    // The reference member is built from the argument itself: if the argument cannot be
+    // mapped directly (e.g. a different storage order), the member owns the evaluated copy
+    template <typename Derived>
+    PartialSVDSolver(const Eigen::EigenBase<Derived>& mat, Index ncomp, Index ncv) :
+        m_mat(mat.derived()), m_m(m_mat.rows()), m_n(m_mat.cols()), m_evecs(0, 0)
     {
         // Determine the matrix type, tall or wide
         if (m_m > m_n)
         {
-            m_op.reset(new SVDTallMatOp<Scalar, MatrixType>(mat));
+            m_op.reset(new SVDTallMatOp<Scalar, MatrixType>(m_mat));
         }
         else
         {
-            m_op.reset(new SVDWideMatOp<Scalar, MatrixType>(mat));
+            m_op.reset(new SVDWideMatOp<Scalar, MatrixType>(m_mat));
         }
 
         // Solver object
